@@ -110,6 +110,8 @@ def search(contract, config, n, seed, max_tries_factor=30):
     results = call_batch(contract.target, good)
     evaluated = 0
     for args, native in zip(good, results):
+        if native.get('input_error'):
+            continue
         try:
             chk = rp.check_concrete(contract, config, args, native)
         except Exception as e:
